@@ -327,7 +327,9 @@ def environments(atoms, limit=256, extra_as_set=True, salt=0) -> list[dict]:
         elif f == "extra":
             axes.append([(f, v) for v in extra_values(atoms, extra_as_set)])
         elif f in ("extras", "dependency_groups"):
-            axes.append([(f, v) for v in extra_values([{**a, "var": "extra"} for a in atoms if a["var"] == f], True)])
+            # packaging documents AbstractSet here: alternate set / frozenset
+            vals = extra_values([{**a, "var": "extra"} for a in atoms if a["var"] == f], True)
+            axes.append([(f, frozenset(v) if i % 2 else v) for i, v in enumerate(vals)])
         else:
             axes.append([(f, v) for v in str_values(f, atoms)])
     total = 1
